@@ -8,7 +8,9 @@ pub struct RingBuffer {
 
 impl RingBuffer {
     pub fn new(size: usize) -> Self {
-        let buffer = vec![0; size];
+        // One byte of the buffer is never used (to tell a full buffer from an empty one),
+        // so the buffer needs at least 2 bytes
+        let buffer = vec![0; size.max(2)];
         Self {
             buffer,
             producer: 0,
